@@ -33,6 +33,7 @@ class RefDevice:
         self.check_style = "crc"         # or "sum"
         self.legacy_exclusive = True
         self.msg_id = 0
+        self.fixed_msg_id = False        # some devices answer with a constant message id
         # scripts (consumed one directive per event; default {} = honest, prompt)
         self.default_directive = {}   # used for a data request when the script is empty
         self.pending_tail = {}        # cid -> bytes of a half-sent unsolicited packet, flushed before the next send
@@ -492,6 +493,10 @@ class RefDevice:
 
     def _extra(self, conn, kind, key):
         """Unsolicited / nuisance messages."""
+        if kind.startswith("unsol_raw:"):
+            # an older report (given body) that the device still had queued: same segment, before the response
+            self._fire("stale_report_before_response")
+            return self.wrap(conn, self.make_frame(bytes.fromhex(kind[10:]), FT_QUERY), key)
         if kind == "unsol_state":
             self._fire("unsolicited_frame")
             return self.wrap(conn, self.state_frame(ftype=FT_QUERY), key)
@@ -518,7 +523,8 @@ class RefDevice:
 
     # --- application layer ----------------------------------------------------------------------
     def make_frame(self, body, ftype):
-        self.msg_id = (self.msg_id + 1) & 0xFF
+        if not self.fixed_msg_id:
+            self.msg_id = (self.msg_id + 1) & 0xFF
         b = bytes(body) + bytes([self.msg_id])
         b = codec.body_with_crc(b) if self.check_style == "crc" else codec.body_with_sum(b)
         return codec.frame_build(b, ftype)
